@@ -774,3 +774,53 @@ Ltac plx_x2 := repeat first
   | match goal with Hn : new_lock _ _ _ _ = (?s', _) |- plx _ _ _ _ ?s' =>
       eapply plx_trans; [|eapply plx_new_lock; [exact Hn|]] end ].
 
+Lemma lock_step_pl s conn c s' ev w :
+  lock_step s conn c = (s', ev, w) -> core_cmd c -> hdead s ->
+  plx (eq (next s)) (fun x => (x = next s /\ next s < next s') \/ href s x) (fun x => x = next s /\ next s < next s') s s'.
+Proof.
+  intros H Hcore Hd. assert (Hcore0 := Hcore). destruct Hcore as (Hack & Hms & Hems & Hdata).
+  unfold lock_step in H. cbv beta zeta in H.
+  set (k := c_key c) in *.
+  match type of H with context [if has (c_flag c) LOCK_FLAG_SHOW then ?a else c] =>
+    set (c1 := if has (c_flag c) LOCK_FLAG_SHOW then a else c) in H end.
+  assert (Hc1 : c_req c1 = c_req c /\ c_tflag c1 = c_tflag c /\ c_eflag c1 = c_eflag c /\ c_data c1 = c_data c
+                /\ c_key c1 = c_key c).
+  { subst c1. destruct (has (c_flag c) LOCK_FLAG_SHOW); cbn; auto. }
+  clearbody c1. destruct Hc1 as (Hreq1 & Htf1 & Hef1 & Hd1 & Hk1).
+  destruct (aget (mgrs s) k) as [m0|] eqn:Hmgr.
+  all: cbv iota in H.
+  all: brk.
+  all: repeat match goal with HP : process_data _ _ _ _ _ = _ |- _ =>
+         rewrite process_data_nodata in HP by congruence; injs end.
+  all: try congruence.
+  all: try solve [exfalso; match goal with HB : (0 <? m_locked (getm (bump _ (setm _ _ new_mgr)) _)) = true |- _ =>
+         rewrite getm_bump_setm_new in HB; vm_compute in HB; discriminate HB end].
+  all: try solve [exfalso; rewrite ?Htf1 in *; rewrite ?Hef1 in *;
+         repeat match goal with HB : _ && _ = true |- _ => apply andb_true_iff in HB; destruct HB end; congruence].
+  all: try match goal with Hn : new_lock ?S0 _ _ _ = (?s1, ?r) |- _ =>
+         let HS0 := fresh "HS0" in
+         assert (HS0 : hdead S0) by (hdead_from Hd);
+         destruct (new_lock_facts _ _ _ _ _ _ Hn HS0) as (Hr & D1 & H1) end.
+  all: plx_x2.
+  all: try solve [match goal with D1 : dead _ _ |- _ => dead_from D1 end].
+  all: try solve [match goal with H1 : hdead _ |- _ => exact H1 end].
+  all: try solve [subst; reflexivity].
+  all: try solve [
+    assert (Hf : forall (m : mgr) (x : ref), href_m ((fun m => m <| m_locked := add32 (m_locked m) 1 |>) m) x -> href_m m x)
+      by (intros ? ? HH; exact HH);
+    match goal with Hn : new_lock ?S0 ?k' ?conn' ?c' = (?s1, ?r), HE : add_expried ?X _ ?r = (?Y, ?aev) |- _ \/ _ =>
+      left;
+      match goal with |- _ /\ _ < next ?S' =>
+        assert (K1 : keep (updm (add_lock s1 k' r) k' (fun m => m <| m_locked := add32 (m_locked m) 1 |>)) X) by apply keep_refl;
+        assert (K2 : keep Y S') by keep_x;
+        destruct (new_hold_chg S0 k' conn' c' s1 r _ X Y aev S' Hn Hf K1 HE K2) as ((Hr' & Hlt) & _ & _);
+        split; [exact Hr'|apply (N.le_lt_trans _ r); [rewrite Hr'; apply N.le_refl|exact Hlt]]
+      end
+    end].
+  all: try solve [
+    match goal with Hn : new_lock ?S0 ?k' ?conn' ?c' = (?s1, ?r) |- _ /\ _ < next ?S' =>
+      destruct (new_wait_chg S0 k' conn' c' s1 r S' Hn ltac:(keep_x)) as ((Hr' & Hlt) & _ & _);
+      split; [exact Hr'|apply (N.le_lt_trans _ r); [rewrite Hr'; apply N.le_refl|exact Hlt]]
+    end].
+  all: try solve [right; apply (getm_href _ k); eapply get_locked_lock_href; eassumption].
+Qed.
